@@ -17,8 +17,10 @@ CHECKS = {
              'generated from the real AST against a sidecar contract (loop '
              'invariant, variant, frame, both exit paths), are discharged by '
              'cvc5/z3 for every stream, position and block size - the whole '
-             'property lives in that function; a bounded whole-reader '
-             'comparison over paddings and block sizes is a labelled stand-in.',
+             'property lives in that function and in its precondition, which '
+             'is discharged at its only call site (_read_header); a bounded '
+             'whole-reader comparison over paddings, block sizes and CRLF-'
+             'header files is a labelled stand-in.',
         design_ref='5/C17',
         technique='contract-based deductive verification: AST->VC symbolic '
                   'execution with loop invariant, discharged by cvc5/z3; '
